@@ -12,6 +12,7 @@ import (
 	"crypto/x509"
 	"encoding/base64"
 	"encoding/pem"
+	"errors"
 	"fmt"
 	"io"
 	"net"
@@ -43,6 +44,9 @@ import (
 //	                   insertSSHCertIntoAgentORWriteToFilesystem three times with the real SshMain key and a
 //	                   locally signed certificate, under a temporary directory, with / without an agent
 //	                   -> files=<name:mode,…> agent=<comment:cert|plain,…> keyfile=<private key found in a file 0|1>
+//	k install <pref> flaky:<w>+<w>,…
+//	                   a healthy first run, then one run per plan against an agent that fails one request of each
+//	                   connection (= attempt) of that run: ok | list | remove<k> | add | life (lifetime refused)
 //	k install <pref> planted
 //	                   the agent-absent case with foreign listeners on conventional agent socket names under
 //	                   $TMPDIR -> … captured=<keys those listeners received> foreignconns=<connections they accepted>
@@ -164,7 +168,17 @@ func TestVerifC19(t *testing.T) {
 			old, had := os.LookupEnv("SSH_AUTH_SOCK")
 			os.Unsetenv("SSH_AUTH_SOCK")
 			var ln net.Listener
-			if f[2] == "agent" {
+			// flaky:<w>+<w>,…  after a first healthy run, one more run per comma-separated plan; the agent fails one
+			// request of each connection (= attempt) of that run: ok | list | remove<k> | add | life
+			var plans [][]string
+			var plan []string // of the current run
+			conns := 0
+			if strings.HasPrefix(f[2], "flaky:") {
+				for _, p := range strings.Split(f[2][len("flaky:"):], ",") {
+					plans = append(plans, strings.Split(p, "+"))
+				}
+			}
+			if f[2] == "agent" || plans != nil {
 				sock := filepath.Join(dir, "agent.sock")
 				ln, err = net.Listen("unix", sock)
 				if err != nil {
@@ -176,7 +190,12 @@ func TestVerifC19(t *testing.T) {
 						if err != nil {
 							return
 						}
-						go agent.ServeAgent(keyring, c)
+						var served agent.Agent = keyring
+						if conns < len(plan) {
+							served = vfNewFaultyAgent(keyring, plan[conns])
+						}
+						conns++
+						go agent.ServeAgent(served, c)
 					}
 				}()
 				os.Setenv("SSH_AUTH_SOCK", sock)
@@ -189,7 +208,15 @@ func TestVerifC19(t *testing.T) {
 				defer planted.restore()
 			}
 			result := "ok"
-			for round := 0; round < 3; round++ {
+			rounds := 3
+			if plans != nil {
+				rounds = 1 + len(plans)
+			}
+			for round := 0; round < rounds; round++ {
+				if plans != nil && round > 0 {
+					// the client is sequential: no connection is being accepted between two runs
+					plan, conns = plans[round-1], 0
+				}
 				sshPub, _ := ssh.NewPublicKey(s.SshMain.Public())
 				cert := &ssh.Certificate{Key: sshPub, CertType: ssh.UserCert, KeyId: "username", Serial: uint64(round + 1),
 					ValidPrincipals: []string{"username"}, ValidAfter: uint64(time.Now().Unix() - 60),
@@ -200,7 +227,7 @@ func TestVerifC19(t *testing.T) {
 				certText := ssh.MarshalAuthorizedKey(cert)
 				err = insertSSHCertIntoAgentORWriteToFilesystem(certText, s.SshMain, FilePrefix+"-"+f[1], "username",
 					filepath.Join(dir, "ssh", "keymaster-"+f[1]), false, logger)
-				if err != nil && f[2] != "agent" && round == 0 {
+				if err != nil && f[2] != "agent" && plans == nil && round == 0 {
 					// the key directory must exist, as setupCerts' makeDirs guarantees
 					os.MkdirAll(filepath.Join(dir, "ssh"), 0700)
 					err = insertSSHCertIntoAgentORWriteToFilesystem(certText, s.SshMain, FilePrefix+"-"+f[1], "username",
@@ -594,4 +621,39 @@ func (p *vfPlanted) restore() {
 		ln.Close()
 	}
 	os.RemoveAll(p.dir)
+}
+
+// vfFaultyAgent serves one connection (one attempt of the client) and fails one request of it, as a
+// restarting, busy or forwarded agent does; `life`: lifetime constraints refused (Windows OpenSSH agent).
+type vfFaultyAgent struct {
+	agent.Agent
+	word    string
+	removes int
+}
+
+func vfNewFaultyAgent(inner agent.Agent, word string) agent.Agent {
+	return &vfFaultyAgent{Agent: inner, word: word}
+}
+
+func (a *vfFaultyAgent) List() ([]*agent.Key, error) {
+	if a.word == "list" {
+		return nil, errors.New("transient agent failure")
+	}
+	return a.Agent.List()
+}
+
+func (a *vfFaultyAgent) Remove(key ssh.PublicKey) error {
+	if a.word == fmt.Sprintf("remove%d", a.removes) {
+		a.word = "ok"
+		return errors.New("transient agent failure")
+	}
+	a.removes++
+	return a.Agent.Remove(key)
+}
+
+func (a *vfFaultyAgent) Add(key agent.AddedKey) error {
+	if a.word == "add" || (a.word == "life" && key.LifetimeSecs != 0) {
+		return errors.New("transient agent failure")
+	}
+	return a.Agent.Add(key)
 }
